@@ -5,26 +5,26 @@ mc       : TLC design-check configs under spec/mc
 gen      : TLC generation configs under spec/mc (behaviours replayed into the real crate)
 """
 PROPS = {
-    "C01": {"profiles": ["C01"], "count": (400, 6000), "mc": [], "gen": []},
-    "C02": {"profiles": ["C02"], "count": (400, 6000), "mc": [], "gen": []},
-    "C03": {"profiles": ["C03"], "count": (400, 6000), "mc": [], "gen": []},
-    "C04": {"profiles": ["C04"], "count": (400, 6000), "mc": [], "gen": []},
+    "C01": {"profiles": ["C01"], "count": (400, 6000), "mc": [{"name": "MC_C01_n2", "module": "MC_C01", "has_thorough": True}, {"name": "MC_C01_n3", "module": "MC_C01", "has_thorough": True}, {"name": "MC_C01_n4", "module": "MC_C01", "has_thorough": True}], "gen": []},
+    "C02": {"profiles": ["C02"], "count": (400, 6000), "mc": [{"name": "MC_C02_n2", "module": "MC_C02", "has_thorough": True}, {"name": "MC_C02_n3", "module": "MC_C02", "has_thorough": True}, {"name": "MC_C02_n4", "module": "MC_C02", "has_thorough": True}], "gen": []},
+    "C03": {"profiles": ["C03"], "count": (400, 6000), "mc": [{"name": "MC_C03_n1", "module": "MC_C03", "has_thorough": True}, {"name": "MC_C03_n2", "module": "MC_C03", "has_thorough": True}, {"name": "MC_C03_n3", "module": "MC_C03", "has_thorough": True}, {"name": "MC_C03_n4", "module": "MC_C03", "has_thorough": True}], "gen": []},
+    "C04": {"profiles": ["C04"], "count": (400, 6000), "mc": [{"name": "MC_C04", "has_thorough": True}], "gen": []},
     "C05": {"profiles": ["C05"], "count": (300, 5000), "mc": [], "gen": [{"name": "Gen_C05", "has_thorough": True, "workers": 8}]},
-    "C06": {"profiles": ["C06"], "count": (300, 5000), "mc": [], "gen": []},
-    "C07": {"profiles": ["C07"], "count": (300, 5000), "mc": [], "gen": []},
-    "C08": {"profiles": ["C08"], "count": (300, 5000), "mc": [], "gen": []},
-    "C09": {"profiles": ["C09"], "count": (300, 5000), "mc": [], "gen": []},
-    "C10": {"profiles": ["C10"], "count": (300, 5000), "mc": [], "gen": []},
-    "C11": {"profiles": ["C11"], "count": (300, 5000), "mc": [], "gen": []},
-    "C12": {"profiles": ["C12"], "count": (400, 6000), "mc": [], "gen": []},
-    "C13": {"profiles": ["C13"], "count": (300, 5000), "mc": [], "gen": []},
-    "C14": {"profiles": ["C14"], "count": (300, 5000), "mc": [], "gen": []},
-    "C15": {"profiles": ["C15"], "count": (300, 5000), "mc": [], "gen": []},
-    "C16": {"profiles": ["C16"], "count": (150, 3000), "mc": [], "gen": [{"name": "Gen_C16"}], "exhaustive": True},
-    "C17": {"profiles": ["C17", "C13", "C06"], "count": (500, 8000), "mc": [], "gen": []},
-    "C18": {"profiles": ["C18"], "count": (300, 4000), "mc": [], "gen": []},
-    "C19": {"profiles": ["C19"], "count": (1500, 20000), "mc": [], "gen": []},
-    "C20": {"profiles": ["C20"], "count": (400, 4000), "mc": [], "gen": []},
+    "C06": {"profiles": ["C06"], "count": (300, 5000), "mc": [{"name": "MC_C06", "has_thorough": True}], "gen": []},
+    "C07": {"profiles": ["C07"], "count": (300, 5000), "mc": [{"name": "MC_C06", "has_thorough": True}], "gen": []},
+    "C08": {"profiles": ["C08"], "count": (300, 5000), "mc": [{"name": "MC_C08", "has_thorough": True}], "gen": []},
+    "C09": {"profiles": ["C09"], "count": (300, 5000), "mc": [{"name": "MC_Geo_LawLook", "module": "MC_Geo", "has_thorough": True}], "gen": []},
+    "C10": {"profiles": ["C10"], "count": (300, 5000), "mc": [{"name": "MC_C10", "has_thorough": True}], "gen": []},
+    "C11": {"profiles": ["C11"], "count": (300, 5000), "mc": [{"name": "MC_Geo_LawMetric", "module": "MC_Geo", "has_thorough": True}], "gen": []},
+    "C12": {"profiles": ["C12"], "count": (400, 6000), "mc": [{"name": "MC_C03_n1", "module": "MC_C03", "has_thorough": True}, {"name": "MC_C03_n2", "module": "MC_C03", "has_thorough": True}, {"name": "MC_C03_n3", "module": "MC_C03", "has_thorough": True}], "gen": []},
+    "C13": {"profiles": ["C13"], "count": (300, 5000), "mc": [{"name": "MC_C13"}], "gen": []},
+    "C14": {"profiles": ["C14"], "count": (300, 5000), "mc": [{"name": "MC_Geo_LawSlerp", "module": "MC_Geo", "has_thorough": True}], "gen": []},
+    "C15": {"profiles": ["C15"], "count": (300, 5000), "mc": [{"name": "MC_Geo_LawArc", "module": "MC_Geo", "has_thorough": True}], "gen": []},
+    "C16": {"profiles": ["C16"], "count": (150, 3000), "mc": [{"name": "MC_Pos_LawViews", "module": "MC_Pos"}], "gen": [{"name": "Gen_C16"}], "exhaustive": True},
+    "C17": {"profiles": ["C17", "C13", "C06"], "count": (500, 8000), "mc": [{"name": "MC_Pos_LawForms", "module": "MC_Pos"}], "gen": []},
+    "C18": {"profiles": ["C18"], "count": (300, 4000), "mc": [{"name": "MC_Pos_LawApprox", "module": "MC_Pos"}], "gen": []},
+    "C19": {"profiles": ["C19"], "count": (1500, 20000), "mc": [{"name": "MC_Pos_LawCast", "module": "MC_Pos"}], "gen": []},
+    "C20": {"profiles": ["C20"], "count": (400, 4000), "mc": [], "gen": [{"name": "MC_C20"}]},
 }
 
 META = {}
